@@ -215,6 +215,7 @@ def r08_s(ctx):
     """a raw number holds a grammatically valid number: one-fraction discipline of the validating number skipper (shared with C02)"""
     from . import c02
     ctx.include(c02.r02_10, 'R08.S')
+    ctx.include(c02.r02_12, 'R08.S')
     ctx.include(c07.r07_9, 'R08.S')
     ctx.include(c07.r07_10, 'R08.S')
 
